@@ -211,6 +211,108 @@ def instance_shekel4(repo, k):
     return '\n'.join(out) + '\n', names, {'family': 'Shekel4', 'k': k, 'declared_point': p, 'declared_value': v, 'box': [lo, hi], 'expr': f}
 
 
+def instance_strongin(repo):
+    """StronginC3: global minimum over the FEASIBLE set through a Lagrangian relaxation certificate. The multiplier and the
+    feasible witness are found numerically here (untrusted); what Coq proves with them is the property's statement."""
+    import numpy as np
+    ins = PT.instance(repo, 'StronginC3')
+    f = ins['expr']
+    lo, hi, p, v = ins['lo'], ins['hi'], ins['point'], ins['value']
+    gs = []
+    for j in range(3):
+        env = {'self.fn': None, 'self.dimension': 2, 'functionValue.type == FunctionType.OBJECTIV': False}
+        for i in range(3):
+            env['functionValue.functionID == %d' % i] = (i == j)
+        gs.append(PT.calculate_expr(repo, 'StronginC3', env))
+    nm = 'strongin_c3'
+    tol = 0.002 * max(1.0, abs(v))
+    w = [0.005 * (hi[i] - lo[i]) for i in range(2)]
+    # ---- numeric search for the certificate: constraint j, multiplier lam, feasible witness q inside the neighbourhood ----
+    n = 401
+    X0 = np.linspace(lo[0], hi[0], n)[:, None] + np.zeros((1, n)); X1 = np.linspace(lo[1], hi[1], n)[None, :] + np.zeros((n, 1))
+    ev = lambda tree: np.vectorize(lambda a, b: PT.evaluate(tree, [a, b]))(X0, X1)
+    F = ev(f); G = [ev(g) for g in gs]
+    feas = (G[0] <= 0) & (G[1] <= 0) & (G[2] <= 0)
+    inside = (abs(X0 - p[0]) < 0.6 * w[0]) & (abs(X1 - p[1]) < 0.6 * w[1])
+    cand = np.where(feas & inside & (G[0] <= -1e-6) & (G[1] <= -1e-6) & (G[2] <= -1e-6), F, np.inf)
+    if not np.isfinite(cand.min()):      # finer local grid around the declared point
+        x0s = np.linspace(p[0] - 0.6 * w[0], p[0] + 0.6 * w[0], 201); x1s = np.linspace(p[1] - 0.6 * w[1], p[1] + 0.6 * w[1], 201)
+        best = None
+        for a in x0s:
+            for b in x1s:
+                if all(PT.evaluate(g, [a, b]) <= -1e-6 for g in gs):
+                    val = PT.evaluate(f, [a, b])
+                    if best is None or val < best[0]:
+                        best = (val, a, b)
+        q = [best[1], best[2]] if best else None
+    else:
+        i = np.unravel_index(cand.argmin(), cand.shape); q = [float(X0[i]), float(X1[i])]
+    if q is None:
+        raise PT.Unsupported('no strictly feasible point near the declared optimum of StronginC3')
+    # refine q on a local grid
+    bestq = (PT.evaluate(f, q), q[0], q[1])
+    for a in np.linspace(q[0] - 0.004, q[0] + 0.004, 81):
+        for b in np.linspace(q[1] - 0.004, q[1] + 0.004, 81):
+            if abs(a - p[0]) < 0.8 * w[0] and abs(b - p[1]) < 0.8 * w[1] and all(PT.evaluate(g, [a, b]) <= -1e-6 for g in gs):
+                val = PT.evaluate(f, [a, b])
+                if val < bestq[0]:
+                    bestq = (val, float(a), float(b))
+    q = [round(bestq[1], 6), round(bestq[2], 6)]
+    vq = PT.evaluate(f, q) + 1e-6
+    outside = (abs(X0 - p[0]) >= w[0]) | (abs(X1 - p[1]) >= w[1])
+    best = None
+    for j in range(3):
+        scale = float(np.abs(G[j]).max()) or 1.0
+        for lam in np.linspace(0.0, 2.0, 401):
+            L = F + (lam / scale) * G[j]
+            m1 = float(L.min()) - (v - tol)
+            m2 = float(np.where(outside, L, np.inf).min()) - vq
+            score = min(m1, m2)
+            if best is None or score > best[0]:
+                best = (score, j, lam / scale, m1, m2)
+    score, j, lam, m1, m2 = best
+    lam = float('%.4g' % lam)
+    out = ['Definition f_%s (x0 x1 : R) : R := %s.' % (nm, PT.to_coq(f))]
+    for i, g in enumerate(gs):
+        out.append('Definition g%d_%s (x0 x1 : R) : R := %s.' % (i, nm, PT.to_coq(g)))
+    names = []
+    box = '%s <= x0 <= %s -> %s <= x1 <= %s' % (r(lo[0]), r(hi[0]), r(lo[1]), r(hi[1]))
+    un = 'unfold f_%s, g%d_%s.' % (nm, j, nm)
+    opt2 = 'i_bisect x0, i_bisect x1, i_depth 60, i_prec 40'
+
+    def lemma(name, stmt, proof):
+        names.append(name)
+        out.append('Lemma %s_%s : %s.\nProof. %s Qed.' % (name, nm, stmt, proof))
+    feasible = 'g0_%s x0 x1 <= 0 -> g1_%s x0 x1 <= 0 -> g2_%s x0 x1 <= 0' % (nm, nm, nm)
+    lemma('c10_value', 'Rabs (f_%s %s %s - %s) <= 0.0001' % (nm, r(p[0]), r(p[1]), r(v)), 'unfold f_%s. interval.' % nm)
+    lemma('c10_lagrange', 'forall x0 x1, %s -> f_%s x0 x1 + %s * g%d_%s x0 x1 >= %s - %s' % (box, nm, r(lam), j, nm, r(v), r(tol)),
+          'intros x0 x1 H0 H1. %s interval with (%s).' % (un, opt2))
+    lemma('c10_lower_feasible', 'forall x0 x1, %s -> %s -> f_%s x0 x1 >= %s - %s' % (box, feasible, nm, r(v), r(tol)),
+          'intros x0 x1 H0 H1 G0 G1 G2. pose proof (c10_lagrange_%s x0 x1 H0 H1). lra.' % nm)
+    lemma('c10_witness', '%s /\\ %s /\\ f_%s %s %s <= %s' % (' /\\ '.join('%s <= %s <= %s' % (r(p[i] - w[i]), r(q[i]), r(p[i] + w[i])) for i in range(2)),
+                                                        ' /\\ '.join('g%d_%s %s %s <= 0' % (i, nm, r(q[0]), r(q[1])) for i in range(3)), nm, r(q[0]), r(q[1]), r(vq)),
+          'unfold f_%s, g0_%s, g1_%s, g2_%s. repeat split; try lra; interval.' % (nm, nm, nm, nm))
+    regions = [('left', '%s <= x0 <= %s -> %s <= x1 <= %s' % (r(lo[0]), r(p[0] - w[0]), r(lo[1]), r(hi[1]))),
+               ('right', '%s <= x0 <= %s -> %s <= x1 <= %s' % (r(p[0] + w[0]), r(hi[0]), r(lo[1]), r(hi[1]))),
+               ('below', '%s <= x0 <= %s -> %s <= x1 <= %s' % (r(p[0] - w[0]), r(p[0] + w[0]), r(lo[1]), r(p[1] - w[1]))),
+               ('above', '%s <= x0 <= %s -> %s <= x1 <= %s' % (r(p[0] - w[0]), r(p[0] + w[0]), r(p[1] + w[1]), r(hi[1])))]
+    for tag, reg in regions:
+        lemma('c10_sep_%s' % tag, 'forall x0 x1, %s -> f_%s x0 x1 + %s * g%d_%s x0 x1 > %s' % (reg, nm, r(lam), j, nm, r(vq)),
+              'intros x0 x1 H0 H1. %s interval with (%s).' % (un, opt2))
+    # every feasible point that is at least as good as the feasible witness lies within 0.5% of the box sides of the declared point
+    lemma('c10_minimisers_near_declared',
+          'forall x0 x1, %s -> %s -> f_%s x0 x1 <= %s -> %s < x0 < %s /\\ %s < x1 < %s' % (box, feasible, nm, r(vq), r(p[0] - w[0]), r(p[0] + w[0]), r(p[1] - w[1]), r(p[1] + w[1])),
+          'intros x0 x1 H0 H1 G0 G1 G2 Hv. '
+          'assert (A : %s < x0) by (destruct (Rlt_le_dec %s x0) as [|Le]; [assumption|]; pose proof (c10_sep_left_%s x0 x1 ltac:(lra) H1); lra). '
+          'assert (B : x0 < %s) by (destruct (Rlt_le_dec x0 %s) as [|Le]; [assumption|]; pose proof (c10_sep_right_%s x0 x1 ltac:(lra) H1); lra). '
+          'assert (C : %s < x1) by (destruct (Rlt_le_dec %s x1) as [|Le]; [assumption|]; pose proof (c10_sep_below_%s x0 x1 ltac:(lra) ltac:(lra)); lra). '
+          'assert (D : x1 < %s) by (destruct (Rlt_le_dec x1 %s) as [|Le]; [assumption|]; pose proof (c10_sep_above_%s x0 x1 ltac:(lra) ltac:(lra)); lra). lra.'
+          % (r(p[0] - w[0]), r(p[0] - w[0]), nm, r(p[0] + w[0]), r(p[0] + w[0]), nm, r(p[1] - w[1]), r(p[1] - w[1]), nm, r(p[1] + w[1]), r(p[1] + w[1]), nm))
+    info = {'family': 'StronginC3', 'declared_point': p, 'declared_value': v, 'constraint_used': j, 'multiplier': lam, 'witness': q, 'witness_value_bound': vq,
+            'numeric_margins': [m1, m2], 'box': [lo, hi]}
+    return '\n'.join(out) + '\n', names, info
+
+
 def simple_ties(repo, dims=(1, 2, 3, 4, 5)):
     """the expression obtained from Rastrigin/XSquared.Calculate for dimension n is the generic function (proved for all n)"""
     out = ['From IOptV Require Import Problems.Simple.']
